@@ -1,6 +1,7 @@
 """C14 - main_thread_only executes in the main thread and never cries deadlock falsely.
 
-Histories of 1-5 remote_execs on a main_thread_only worker with outcomes return / raise / SystemExit /
+Histories of 1-5 remote_execs on a main_thread_only worker with outcomes return / raise (BodyError, EOFError, other
+builtin exceptions incl. GeneratorExit) / receive() ended by the initiator's close / SystemExit /
 KeyboardInterrupt (SIGINT fault while the body runs) / blocked-until-released, submitted sequentially (next one
 only after the previous channel was seen closed) or overlapping (while the earlier body is still blocked).
 """
@@ -19,7 +20,7 @@ BUDGET = {
     "thorough": {"budget_s": 900, "chunk": 200, "shrink_s": 120},
 }
 RULE = (
-    "cases: histories of 1-5 remote_exec bodies (return, raise, SystemExit, interrupted by SIGINT, blocked until "
+    "cases: histories of 1-5 remote_exec bodies (return, raise incl. EOFError/GeneratorExit/OSError, receive() ended by the initiator closing the channel, SystemExit, interrupted by SIGINT, blocked until "
     "released) on a main_thread_only worker reached over popen / bare / proxied gateways, each next submission either "
     "sequential (after the previous channel was observed closed) or overlapping a blocked body; schedules uniform/sticky/"
     "PCT with 0-3 line preemptions, small pipes.  Non-trivial = at least two submissions under a schedule with real "
@@ -61,7 +62,8 @@ def gen(rng, tier):
     n = rng.choice([1, 2, 2, 3, 3, 4, 5])
     worker_name = "w2" if transport == "proxy" else "w1"
     for i in range(n):
-        kind = rng.choice(["ret", "ret", "raise", "raise", "sysexit", "int", "block"])
+        kind = rng.choice(["ret", "ret", "raise", "raise", "sysexit", "int", "block", "raise_eof", "recv_closed",
+                           "raise_other"])
         label = f"b{i}"
         B = new_actor("w", label)
         bodies.append((B, kind, True))
@@ -76,6 +78,20 @@ def gen(rng, tier):
         elif kind == "raise":
             add(B, ["raise", "body boom"], "raised")
             add(0, ["waitclose", label, 600], "remote:BodyError")
+        elif kind == "raise_eof":
+            # an EOFError leaving the body (the usual end of a receive loop) is not reported as an error
+            add(B, ["propagate", ["raise_named", "EOFError"]], "eof")
+            add(0, ["waitclose", label, 600], "ok")
+        elif kind == "recv_closed":
+            # the body is (or will be) blocked in receive() when the initiator closes the channel: EOFError ends it
+            add(B, ["propagate", ["recv", label]], "eof")
+            if rng.random() < 0.5:
+                add(0, ["yield", rng.randrange(1, 6)], "ok")
+            add(0, ["close", label], "ok")
+        elif kind == "raise_other":
+            exc = rng.choice(["OSError", "GeneratorExit", "StopIteration", "MemoryError", "AssertionError"])
+            add(B, ["propagate", ["raise_named", exc]], "any")
+            add(0, ["waitclose", label, 600], f"remotetext:{exc}")
         elif kind == "sysexit":
             add(B, ["raise_sys", 3], "any")
             add(0, ["waitclose", label, 600], "remotetext:SystemExit")
@@ -143,7 +159,9 @@ def execute(case, chooser):
 
 def oracle(case, res, hist):
     V = L.generic_rules(res, hist, allow_exc={("*", "RemoteError"), ("*", "EOFError"), ("sleep", "KeyboardInterrupt"),
-                                               ("raise_sys", "SystemExit")}, key="mto")
+                                               ("raise_sys", "SystemExit")}
+                        | {("propagate", x) for x in ("OSError", "GeneratorExit", "StopIteration", "MemoryError",
+                                                      "AssertionError")}, key="mto")
     # false deadlock gets its own rule name
     for e in L.check_expectations(case, hist, "mto"):
         if DEADLOCK in e["detail"] and "expected remotetext:" + DEADLOCK not in e["detail"]:
